@@ -469,6 +469,13 @@ def gen_session_cases(ctx, scale, oracle_only=False):
         user = {"accepted": "bob", "rejected": "bob", "unknown_user": "nobody", "after_nopw_login": "nopw"}[outcome]
         cases.append({"kind": "login", "users": users, "login": (user, pw), "pw": pw, "canaries": canaries, "shape": shape,
                       "spelling": "client", "verb": "PASS", "in_scope": True, "outcome": outcome})
+    # passwords that look like the command itself (prefixes and pieces of "PASS PASS ..."): a censor that locates the
+    # secret inside the line instead of cutting at a fixed column finds it at the wrong place
+    for pw in ["P", "PA", "PAS", "PASS", "PASS ", "PASS P", "PASS PASS", "pass", "ASS", "S", "SS P", " PASS", "*", "PASS *"]:
+        for outcome in ("rejected", "accepted"):
+            stored = pw.rstrip() if outcome == "accepted" and pw.rstrip() else "another-Pw"
+            cases.append({"kind": "login", "users": [("bob", stored), ("nopw", None)], "login": ("bob", pw), "pw": pw, "canaries": [],
+                          "shape": "verb_like", "spelling": "client", "verb": "PASS", "in_scope": True, "outcome": outcome})
     # LF inside the password through Client.login (known finding) and the > 64 KiB line (oracle only)
     for i in range(ctx.pick(6, 30)):
         t1, t2 = token(rng), token(rng)
